@@ -1,9 +1,16 @@
 package world
 
-import "golang.org/x/tools/go/ssa"
+import (
+	"golang.org/x/tools/go/ssa"
+
+	"verif/sa/internal/ai"
+)
 
 // ReachFrom exposes reference-graph reachability (over-approximate call graph).
 func (w *World) ReachFrom(roots []*ssa.Function) map[*ssa.Function]bool { return w.reachFrom(roots) }
 
 // Refs returns the functions mentioned by fn (callees, closures, method values, interface implementations).
 func (w *World) Refs(fn *ssa.Function) []*ssa.Function { return w.refs[fn] }
+
+// FuncID exposes the identity string used in entry names.
+func FuncID(f *ai.Func) string { return funcID(f) }
